@@ -374,6 +374,8 @@ def r6(tree, rep):
 
 
 def run(tree, rep, tier):
+    from .. import sharedstate
+    sharedstate.check(tree, rep, "C20.R0")
     r1_r2(tree, rep)
     r3(tree, rep, _namedtuples(tree))
     r4(tree, rep)
